@@ -159,7 +159,7 @@ def check1(case, acc, tmp):
 
 # ----------------------------------------------------------------------------- part 3
 MENU = ['#SampleID\tA\tB\n', '# a comment\n', '\n', 'x\t1\t2.5\n', 'y\t"q"\n', 'z\t a b \tc;d|e\n',
-        'x\t9\t9\n', 'w\t1\t2\t3\n', '   \n', 'y\t7\tp; q\n', 'v\t-3\t+4.5e1\n']
+        'x\t9\t9\n', 'w\t1\t2\t3\n', '   \n', 'y\t7\tp; q\n', 'q\t-3\t+4.5e1\n']
 OPTSETS = {
     'default': {},
     'keepquotes': {'strip_quotes': False},
